@@ -718,6 +718,19 @@ example : (Converter.bundled Rat).Sound ∧ LinearClass (Converter.bundled Rat) 
   ⟨C09_bundled_sound, C10_bundled_linear _ (by decide), C10Witness.idOrd_isPerm,
    C10Witness.revOrd_isPerm, C10Witness.refRecipe_consistent⟩
 
+open C10Witness in
+/-- `C10_shopping_list_conserves` speaks about something: the right-hand side for the tuna recipe and the
+    aisle file `[canned]⏎tuna|chicken of the sea` is 3000 g under (canned, tuna), nothing in `other`; and
+    merging two groups in either direction gives 1200 g -/
+example : total cB (.known .mass)
+      ([tunaRecipe].flatMap (selRecipeQuantities (fun n => decide (sentTo aisleConf n canned tuna)))) = (3000, 3000) ∧
+    [tunaRecipe].flatMap (selRecipeQuantities (fun n => decide (Aisle.lookup aisleConf n = none ∧ n = tuna))) = [] ∧
+    total cB (.known .mass) ((merge idOrd cB (addAll cB empty [num 1 (some kg)]) (addAll cB empty [num 200 (some gram)])).iter idOrd)
+      = (1200, 1200) ∧
+    total cB (.known .mass) ((merge idOrd cB (addAll cB empty [num 200 (some gram)]) (addAll cB empty [num 1 (some kg)])).iter revOrd)
+      = (1200, 1200) := by
+  decide +kernel
+
 /-- `ParsedScaled` is inhabited (the analysis has an output, here on the empty input; `lexFrom` is
     defined by well-founded recursion, so inputs with content do not reduce by `rfl` — the content of the
     hypothesis is exercised by `refRecipe_consistent` above) -/
